@@ -78,7 +78,7 @@ McpMean(f, tp, pdf, w, i) ==
   ELSE IF i = 1 THEN (IF f.salt % 3 = 1 THEN << (Mix(tp, pdf, 1, f.salt) % 3) - 1, 2 >>    \* log gain in {-1/4,0,1/4}
                                          ELSE << 4 + (Mix(tp, pdf, 1, f.salt) % 3), 2 >>)   \* gain in {1, 5/4, 3/2}
   ELSE << 48 * (i - 1) + (Mix(tp, pdf, i, f.salt) % 7) - 3, 6 - (IF McpVlen(f) = 3 THEN 0 ELSE 0) >>   \* LSP: 0.75*(i-1) +- 3/64
-LnGain(f) == f.stage > 0 /\ f.salt % 3 = 1
+LnGain(f) == f.salt % 3 = 1
 StreamWords(f, name, vlen, nwin, msd, tp, pdf) ==
   LET n == vlen * nwin
       mean(j) == LET w == ((j - 1) \div vlen) + 1  i == ((j - 1) % vlen) + 1 IN
@@ -106,7 +106,9 @@ GvModel(f, vlen, sidx) == LET k == (f.shape + sidx) % 2  q == QPick(f.salt + 11 
   [qs |-> QsOf(k, q), trees |-> << Shape(k, 2, q) >>, pdfs |-> << [p \in 1..NPdf(k) |-> GvWords(f, vlen, p)] >>]
 NoModel == [qs |-> <<>>, trees |-> <<>>, pdfs |-> <<>>]
 
-McpOpts(f) == IF f.stage = 0 THEN << "ALPHA=0.25" >>
+\* spectrum-stream options: the order of the keys is free in the format, and LN_GAIN may be written without GAMMA
+McpOpts(f) == IF f.stage = 0 THEN (IF LnGain(f) THEN << "LN_GAIN=1", "ALPHA=0.25" >> ELSE << "ALPHA=0.25" >>)
+              ELSE IF f.quoted THEN << "ALPHA=0.25", "LN_GAIN=" \o (IF LnGain(f) THEN "1" ELSE "0"), "GAMMA=" \o ToString(f.stage) >>
               ELSE << "GAMMA=" \o ToString(f.stage), "LN_GAIN=" \o (IF LnGain(f) THEN "1" ELSE "0"), "ALPHA=0.25" >>
 Stream(f, name, pre, vlen, wins, msd, opts, gv, sidx) ==
   [name |-> name, pre |-> pre, vlen |-> vlen, msd |-> msd, wins |-> wins, opts |-> opts,
